@@ -169,8 +169,12 @@ func c03hStatusOf(act string, i int) []int {
 		return []int{hhOKStatus(i)}
 	case hhErr:
 		return []int{hhErrStatus(i)}
+	case hhCloseMid:
+		// the upstream did send this status before it went away (HTTP/2 delivers the header block on its
+		// own): a reply that carries it is explained by a cause that occurred - the statement fixes no codes
+		return []int{hhOKStatus(i)}
 	}
-	return nil // close / silent / close-mid-response end in a MOSN-generated reply
+	return nil // close / silent / rst end in a MOSN-generated reply
 }
 
 // c03hCheck evaluates the oracle on one finished execution.
